@@ -273,6 +273,7 @@ class FuncWalk:
         # flow-sensitive may-alias environment of local names: name -> set of roots ('self', attr) | ('param', p)
         self.alias = {}
         self.quiet = False
+        self.break_defs = []
         self.exit_defs = []     # `defined` sets at normal exits
         d = self.block(self.node.body, frozenset())
         if d is not None:
@@ -307,6 +308,17 @@ class FuncWalk:
         if isinstance(e, ast.IfExp):
             return self.roots(e.body) | self.roots(e.orelse)
         return set()
+
+    @staticmethod
+    def none_test(t):
+        """(name that is None in the body, name that is None in the else branch)"""
+        if isinstance(t, ast.Compare) and len(t.ops) == 1 and isinstance(t.left, ast.Name) and \
+                isinstance(t.comparators[0], ast.Constant) and t.comparators[0].value is None:
+            if isinstance(t.ops[0], ast.Is):
+                return t.left.id, None
+            if isinstance(t.ops[0], ast.IsNot):
+                return None, t.left.id
+        return None, None
 
     def cur(self, name):
         if name in self.alias:
@@ -399,9 +411,15 @@ class FuncWalk:
         if isinstance(st, ast.If):
             defined = self.expr(st.test, defined)
             env0 = dict(self.alias)
+            # `if x is None:` / `if x is not None:` — in the branch where x is None it denotes no caller object
+            none_body, none_else = self.none_test(st.test)
+            if none_body:
+                self.alias[none_body] = set()
             a = self.block(st.body, defined)
             enva = self.alias
             self.alias = dict(env0)
+            if none_else:
+                self.alias[none_else] = set()
             b = self.block(st.orelse, defined)
             envb = self.alias
             if a is None:
@@ -417,22 +435,40 @@ class FuncWalk:
             d1 = self.target(st.target, defined)
             itr = self.roots(st.iter)
             env0 = dict(self.alias)
-            # the body may run zero times; it is walked twice so that aliases carried around the loop are seen
+            # the body may run zero times; it is walked twice so that aliases carried around the loop are seen.
+            # `break` leaves the loop with what is defined at that point and skips the `else` block.
+            self.break_defs.append([])
             for _ in range(2):
                 self.bind(st.target, itr)
                 self.block(st.body, d1)
                 self.alias = self.merge_env([env0, self.alias])
-            e = self.block(st.orelse, defined)
-            return defined if e is None else (defined & e if st.orelse else defined)
+            breaks = self.break_defs.pop()
+            e = self.block(st.orelse, defined) if st.orelse else defined     # exhaustion (possibly zero iterations)
+            outs = list(breaks) + ([e] if e is not None else [])
+            if not outs:
+                return None
+            r = set(outs[0])
+            for o in outs[1:]:
+                r &= o
+            return frozenset(r)
         if isinstance(st, ast.While):
             defined = self.expr(st.test, defined)
             env0 = dict(self.alias)
+            self.break_defs.append([])
             for _ in range(2):
                 self.block(st.body, defined)
                 self.expr(st.test, defined)
                 self.alias = self.merge_env([env0, self.alias])
-            self.block(st.orelse, defined)
-            return defined
+            breaks = self.break_defs.pop()
+            e = self.block(st.orelse, defined) if st.orelse else defined
+            always = isinstance(st.test, ast.Constant) and bool(st.test.value)    # `while True:` leaves only by break
+            outs = list(breaks) + ([e] if (e is not None and not always) else [])
+            if not outs:
+                return None
+            r = set(outs[0])
+            for o in outs[1:]:
+                r &= o
+            return frozenset(r)
         if isinstance(st, (ast.With, ast.AsyncWith)):
             for it in st.items:
                 defined = self.expr(it.context_expr, defined)
@@ -478,7 +514,13 @@ class FuncWalk:
             for sub in st.body if hasattr(st, 'body') else []:
                 self.stmt(sub, defined) if isinstance(sub, ast.stmt) else None
             return defined
-        if isinstance(st, (ast.Pass, ast.Break, ast.Continue, ast.Global, ast.Nonlocal, ast.Import, ast.ImportFrom)):
+        if isinstance(st, ast.Break):
+            if self.break_defs:
+                self.break_defs[-1].append(defined)
+            return None
+        if isinstance(st, ast.Continue):
+            return None
+        if isinstance(st, (ast.Pass, ast.Global, ast.Nonlocal, ast.Import, ast.ImportFrom)):
             return defined
         if isinstance(st, ast.Assert):
             return self.expr(st.test, defined)
